@@ -3,7 +3,6 @@
 //! images of movetime / clock expiry).  Layer B: black-box scripts against the real binary.
 
 use crate::blackbox::{Proc, Wait};
-use crate::eng;
 use crate::gen;
 use crate::props::c04::gen_position_cmd;
 use crate::props::threads;
